@@ -40,8 +40,11 @@ CLAIMS = {
              "names agrees with the full evaluation on that set, hence a common target has the same value under two target sets and "
              "unused data columns do not matter. Obligations regenerated every run from the graph the REAL loader builds: topological "
              "order + closedness of the default targets' ancestor sets. Engine runs: random target subsets vs all-nodes run "
-             "(bit-identical), extra columns, debug, minimal-specification option, result shape.",
-        technique="Coq proof (Engine.run_closed_subset) + reflective checks on the regenerated loader graph + differential engine runs",
+             "(bit-identical), extra columns (incl. other time units of internally computed rules), debug, minimal-specification option, "
+             "result shape. U7: the concrete Coq engine Table.run_table (every node kind, regenerated rule ASTs, model environment, real "
+             "graph) is compared with compute_taxes_and_transfers column by column.",
+        technique="Coq proof (Engine.run_closed_subset, Table.table_target_independent) + reflective checks on the regenerated loader graph "
+                  "+ whole-engine correspondence U7 + differential engine runs",
         design="6/C04"),
     "C05": dict(
         text="Theorem (abstract engine): removing a node and supplying its computed column as data leaves every column unchanged "
@@ -145,15 +148,21 @@ CLAIMS["C14"] = dict(
     design="6/C14")
 
 CLAIMS["C16"] = dict(
-    text="PARTIAL. A verified analysis (Sign.v): whenever it accepts a rule body, every value the rule returns is a finite, non-negative "
-         "number (or a bool) for all finite non-negative arguments — soundness proved for expressions and statements of the deep "
-         "embedding (constants, parameter leaves of the date, + * /, comparisons, and/or/not, conditional expressions, two-argument "
-         "min/max, assignments, augmented + and *, if/else, return). Obligation regenerated every run for every date class >= 2015: "
-         "the 134 nodes of c16_baseline.json are proved (rules by the analysis on the regenerated ASTs, derived nodes by closure, rounding "
-         "by round_nonneg). Caps: theorems on the closed forms of the three final benefit rules (tied to the ASTs under C17) and of the "
-         "contribution schedule (C19). The remaining nodes, incl. most default targets (subtractions, schedules), are covered by the "
-         "corner sweeps of the real engine only: every numeric column finite, default targets >= 0, caps respected.",
-    technique="Coq proof (Sign.nn_s_sound; cap theorems) + reflective analysis of regenerated rule ASTs per date class + corner sweeps of the real engine",
+    text="PARTIAL. A verified abstract interpreter of the rule language (Absint.v, theorem rule_aval_sound): whenever the arguments of a "
+         "rule are described by their abstract values and the rule (with the helpers it calls, fuel as in the evaluator) returns a value, "
+         "that value is described by the abstract result. Domain: exact values (parameters, literals, everything computed from them "
+         "alone incl. comprehensions over parameter tables), finite candidate sets (parameter tables indexed by data), intervals with "
+         "optional rational bounds for finite numbers (Itv.v: enclosure lemma per operation), lists, unbound names (if/elif chains). "
+         "Piecewise schedules: reflective sign checker with soundness through pp_impl_eq_spec. Obligation regenerated every run for every "
+         "dumped date >= 2015: the dataflow over the REAL loader's graph with the concrete parameters of the date proves the per-date "
+         "node sets of c16_baseline.json finite / non-negative and their upper bounds (2024: 313 of 317 nodes finite, all 18 default "
+         "targets finite, 11 non-negative; e.g. arbeitsl_geld_m in [0, 5058.5], health-insurance wage base <= assessment ceiling); "
+         "the proved bounds are compared with the caps computed from the implementation's parameters. The composition over the table "
+         "uses closure rules with value-level lemmas only (cast, rounding, unit conversion); contributions are proved finite, their "
+         "non-negativity rests on Contrib.v (C19). Cap theorems on the closed forms of the final benefit rules (tied to the ASTs under "
+         "C17). Corner sweeps of the real engine: every numeric column finite, default targets >= 0, caps respected.",
+    technique="Coq proof (Absint.rule_aval_sound abstract interpreter, Itv enclosures, PiecewiseSign.nn_chk_sound, cap theorems) + "
+              "reflective dataflow on regenerated rule ASTs / graph per date + corner sweeps of the real engine",
     design="6/C16")
 
 CLAIMS["C17"] = dict(
